@@ -577,6 +577,10 @@ package internals
 //@   ensures[C14] providers_pass_through: implements(val, DataProvider) ==> result0 == val && result1 == nil
 //@   ensures[C06] result1 == nil ==> result0 != nil
 //@   ensures result1 != nil ==> true
+//@   ensures[C02,C14,C18] checked_maps_of_other_element_kinds_are_rejected: val != nil && !implements(val, DataProvider) && rv_kind(rv_of(val)) == 21 && rt_kind(rt_key(rv_type(rv_of(val)))) == 24 && rt_kind(rt_elem(rv_type(rv_of(val)))) != 24 && rt_kind(rt_elem(rv_type(rv_of(val)))) != 2 && rt_kind(rt_elem(rv_type(rv_of(val)))) != 14 && rt_kind(rt_elem(rv_type(rv_of(val)))) != 1 && rt_kind(rt_elem(rv_type(rv_of(val)))) != 20 ==> result1 != nil
+//@   ensures[C02,C14] checked_maps_without_string_keys_are_rejected: val != nil && !implements(val, DataProvider) && rv_kind(rv_of(val)) == 21 && rt_kind(rt_key(rv_type(rv_of(val)))) != 24 ==> result1 != nil
+//@   ensures[C02,C14] checked_scalars_and_slices_are_rejected: val != nil && !implements(val, DataProvider) && rv_kind(rv_of(val)) != 21 && rv_kind(rv_of(val)) != 25 && rv_kind(rv_of(val)) != 22 ==> result1 != nil
+//@   ensures[C02,C14] checked_nil_and_structs_are_records: (val == nil || (!implements(val, DataProvider) && rv_kind(rv_of(val)) == 25)) ==> result1 == nil
 
 // UnwrapPtr follows pointers to the value they point to (reflect loop: trusted).
 //@ specfun unwrapped(Iface) Iface
